@@ -100,7 +100,7 @@ func letters(n int) string {
 
 // Pools of the naming adversary: identifiers designed against the generator's name
 // allocator (base = lowerCamel(type name), numeric suffixes, hard-coded locals).
-var advTypeNames = []string{"Eg", "Ctx", "Ch", "Zero", "Err", "Errgroup", "Context", "Kessoku", "Foo", "Foo0", "Foo1", "Foo00", "FooCh", "FooCh0",
+var advTypeNames = []string{"Über", "Élan", "Ωmega", "ÀB", "Eg", "Ctx", "Ch", "Zero", "Err", "Errgroup", "Context", "Kessoku", "Foo", "Foo0", "Foo1", "Foo00", "FooCh", "FooCh0",
 	"Num", "Num0", "Str", "Str0", "Val", "Val0", "Val1", "ValCh", "Flag", "Type", "Func", "Range", "Go", "String", "Error", "Len", "Close", "Make", "New", "Nil", "Any",
 	"Config", "Err0", "Err1", "Ctx0", "Eg0", "Ptr", "Complex", "Null", "Invalid", "Arg0", "Result0", "ID", "HTTPServer", "Select", "Default", "Var", "Chan", "Map", "Struct", "Interface", "Package", "Import", "Return", "Defer", "Bool", "Int", "Append", "Panic", "True", "Iota"}
 var advPkgNames = []string{"num", "str0", "config", "err0", "ctx", "eg", "val", "valCh", "foo0", "fooCh", "zero", "ch", "err", "errgroup", "context0", "num0", "foo", "flag", "str"}
